@@ -214,3 +214,21 @@ Inductive dpart :=
 | DValue (name : string) (field : path)
 | DScope | DObject
 | DUnknown (src : string).
+
+(* ===== dstutil.Apply (dstutil/rewrite.go) ============================================== *)
+Inductive apart :=
+| AOne (lit field : string)            (* a.apply(n, "lit", nil, n.field) *)
+| AMany (lit : string)                 (* a.applyList(n, "lit") *)
+| APkgFiles                            (* files of a package in sorted name order *)
+| AUnknown (src : string).
+
+(* the Cursor edit methods as slice operations *)
+Inductive iop :=
+| IFileCase | IGetIndex | IPanicIfNoSlice | IField | ILen
+| IAppendZero
+| ICopy (d s : Z)                      (* reflect.Copy(v.Slice(i+d, l), v.Slice(i+s, l)) *)
+| IZeroLast | ITrunc
+| ISet (o : Z)                         (* v.Index(i+o).Set(n) *)
+| IStep (z : Z) | IIndex (z : Z)
+| IAtIndex | ISetV
+| IUnknown (src : string).
